@@ -164,6 +164,16 @@ def adjoint_tests(which):
         cost2 = lambda xx: float((gb * act.DiscreteEncoder(act.Softmax(), levels).forward(xx)).sum())
         enc.forward(x)
         check('encoder-gradient', bool(np.isclose((enc.backprop(gb) * d).sum(), (cost2(x + h * d) - cost2(x - h * d)) / (2 * h), rtol=1e-5, atol=1e-8)))
+        # inputs of rank 3 with the upstream gradient in every memory layout (C order, Fortran order, a transposed view)
+        shp3 = (int(rng.integers(2, 4)), int(rng.integers(2, 4)), K)
+        x3, d3 = rng.standard_normal(shp3), rng.standard_normal(shp3)
+        g3 = rng.standard_normal(shp3)
+        lay = int(rng.integers(0, 3))
+        g3l = g3 if lay == 0 else (np.asfortranarray(g3) if lay == 1 else np.ascontiguousarray(g3.transpose(2, 1, 0)).transpose(2, 1, 0))
+        sm3 = act.Softmax()
+        cost3 = lambda xx: float((g3 * act.Softmax().forward(xx)).sum())
+        sm3.forward(x3)
+        check('softmax-jvp-rank-3-any-layout', bool(np.isclose((sm3.backprop(g3l) * d3).sum(), (cost3(x3 + h * d3) - cost3(x3 - h * d3)) / (2 * h), rtol=1e-5, atol=1e-8)))
         # Gumbel-softmax: the noise is frozen by re-seeding the node's generator before every forward call, which makes forward a
         # deterministic function; temperature given at construction and re-assigned on the live object (annealing, the documented use)
         tau0, tau1 = float(rng.uniform(0.3, 2.5)), float(rng.uniform(0.3, 2.5))
